@@ -10,23 +10,23 @@ E3 = "E3-schedule-exploration"
 # property -> (engine, level text, level note, technique, design_ref)
 CHECKS = {
     "C01": (E1,
-            "Windows include one with interior zeros and negative taps; low-relative-scatter records; two realistic-size bins per backend/mode/order (K=300xL=4096, K=33000xL=40). Every record over the alphabet {-2,0,1}^L (L<=4 quick, <=5 cross / <=7 auto thorough), every ordered start sequence on a 7-sample record, all windows/frequencies/orders in the stated lattice are run through the real Numba, NumPy and CUDA-simulator kernels and compared with a longdouble evaluation of the defining sum; no sampling.",
+            "Kernel-level analysis frequencies include |sin w| < 1e-4 (3e-5, pi-3e-5, 1e-8). Windows include one with interior zeros and negative taps; low-relative-scatter records; two realistic-size bins per backend/mode/order (K=300xL=4096, K=33000xL=40). Every record over the alphabet {-2,0,1}^L (L<=4 quick, <=5 cross / <=7 auto thorough), every ordered start sequence on a 7-sample record, all windows/frequencies/orders in the stated lattice are run through the real Numba, NumPy and CUDA-simulator kernels and compared with a longdouble evaluation of the defining sum; no sampling.",
             "small-scope: alphabet {-2,0,1}, identifiable records, L<=7 (long L only in thorough part C); CUDA = core_cuda.py under numba's simulator; tolerance is a derived rounding bound of the recurrence",
             "bounded exhaustive input enumeration against a reference model (explicit-state, no sampling)", "DESIGN.md §4 C01"),
     "C02": (E1,
-            "Plus process-level ordered-pair call histories (fork->A->fork->B vs pristine) over a 29-configuration set, analyzer plan == direct plan, and spot configurations at N=60000/100000. Full product of a configuration lattice (every N in 8..40/64 plus large N, 8 overlaps incl. 0.9/0.99, all clamp-activating bmin/Lmin, 7-8 Jdes, 5 Kdes, 3-4 fs) for all four schedulers, each called directly and through SpectrumAnalyzer.plan(); every bin of every plan is checked against the segmentation predicates.",
+            "Analyzer route with the scheduler named by string and passed as a function, also with Lmin/bmin configured under LPSD; sampling rates 3e-8 and 4e7 on part of the lattice. Plus process-level ordered-pair call histories (fork->A->fork->B vs pristine) over a 29-configuration set, analyzer plan == direct plan, and spot configurations at N=60000/100000. Full product of a configuration lattice (every N in 8..40/64 plus large N, 8 overlaps incl. 0.9/0.99, all clamp-activating bmin/Lmin, 7-8 Jdes, 5 Kdes, 3-4 fs) for all four schedulers, each called directly and through SpectrumAnalyzer.plan(); every bin of every plan is checked against the segmentation predicates.",
             "configurations off the lattice are not covered; admissibility filter is the property's quantifier",
             "bounded exhaustive configuration enumeration with per-state invariants", "DESIGN.md §4 C02"),
     "C03": (E1,
-            "Plus the process-level ordered-pair call histories and N=60000/100000 spot configurations. Same lattice; per-plan invariants r*L=fs, f[j+1]=f[j]+r[j], f[0]=bmin*fs/N, monotone, below Nyquist, b=f/r=f*L/fs, lower bound on b with the two slacks the property names, lpsd == ltf(bmin=1,Lmin=1).",
+            "Sampling rates 3e-8 and 4e7 on part of the lattice. Plus the process-level ordered-pair call histories and N=60000/100000 spot configurations. Same lattice; per-plan invariants r*L=fs, f[j+1]=f[j]+r[j], f[0]=bmin*fs/N, monotone, below Nyquist, b=f/r=f*L/fs, lower bound on b with the two slacks the property names, lpsd == ltf(bmin=1,Lmin=1).",
             "float comparisons at 4-16 ulp; slack for b derived from half-sample rounding of L and the lookup-grid ratio",
             "bounded exhaustive configuration enumeration with per-state invariants", "DESIGN.md §4 C03"),
     "C04": (E1,
-            "Plus process-level ordered-pair call histories incl. forced-bin-count searches, analyzer plan == direct plan on a sub-lattice, forced targets at N=60000. Same lattice with the C04 predicates (monotone L/navg, log spacing and Kdes where a reference decision procedure says no clamp is active, nearest-integer navg with cap, even spreading, realised overlap, vectorised-vs-iterative bin count) plus every force_target_nf target in 100..400 for each scheduler.",
+            "Spot configuration N=200000, olap=0.9 (bins with >= 2^16 segments); sampling rates 3e-8 and 4e7 on part of the lattice. Plus process-level ordered-pair call histories incl. forced-bin-count searches, analyzer plan == direct plan on a sub-lattice, forced targets at N=60000. Same lattice with the C04 predicates (monotone L/navg, log spacing and Kdes where a reference decision procedure says no clamp is active, nearest-integer navg with cap, even spreading, realised overlap, vectorised-vs-iterative bin count) plus every force_target_nf target in 100..400 for each scheduler.",
             "'no clamp active' decided by a reference procedure written from the documented targets; ties accepted either way",
             "bounded exhaustive configuration enumeration with per-state invariants", "DESIGN.md §4 C04"),
     "C05": (E1,
-            "Plus off-grid single-bin requests (non-dividing fres, off-plan L), process-level ordered-pair call histories, a 1613-bin plan and an N=20000 default-parameter analysis. Full product of an analysis-configuration lattice (N, 4 schedulers, 6 window specifications incl. numpy/scipy Kaiser callables and a custom callable, 4 orders, Numba/NumPy (+CUDA-simulator) backends, 3 overlaps, 2 (Jdes,Kdes), bmin, Lmin, auto/cross, 2-3 records): every bin of every result is compared with a longdouble reference estimator evaluated at the plan's own f, L, D with an independently built window; every bin is re-requested as a single-bin analysis (L= and fres=); every pair of band edges from a stated set is checked against the in-band slice.",
+            "Sub-lattice with fs=3e-8 and 4e7; four 140000-sample analyses (segment lengths beyond 2^16, frequencies below 1e-5 fs) on records with strong low-bin content. Plus off-grid single-bin requests (non-dividing fres, off-plan L), process-level ordered-pair call histories, a 1613-bin plan and an N=20000 default-parameter analysis. Full product of an analysis-configuration lattice (N, 4 schedulers, 6 window specifications incl. numpy/scipy Kaiser callables and a custom callable, 4 orders, Numba/NumPy (+CUDA-simulator) backends, 3 overlaps, 2 (Jdes,Kdes), bmin, Lmin, auto/cross, 2-3 records): every bin of every result is compared with a longdouble reference estimator evaluated at the plan's own f, L, D with an independently built window; every bin is re-requested as a single-bin analysis (L= and fres=); every pair of band edges from a stated set is checked against the in-band slice.",
             "small N (16..64, thorough to 257); reference Kaiser window from the I0 definition with the published alpha(psll) polynomial",
             "bounded exhaustive configuration/input enumeration against a reference model", "DESIGN.md §4 C05"),
     "C06": (E1,
@@ -34,7 +34,7 @@ CHECKS = {
             "tolerance 2r+r^2 (+rounding) with r the side-lobe level that C12 establishes; scaling laws to derived rounding tolerance",
             "bounded exhaustive configuration/input enumeration with an analytic oracle", "DESIGN.md §4 C06"),
     "C07": (E1,
-            "Full product N x record x 4 schedulers x Lmin x olap x window x order x backend x {3 gains, 3 delays}: Hxy = g and coh = 1 for pure gains; for delays Hxy equals the reference conj(X)Y/|X|^2 (which pins the conjugation on each backend separately) and, where the computed edge effect is small, the phase is negative and the magnitude ~1.",
+            "Kernel-level delays also at analysis frequencies with |sin w| < 1e-4. Full product N x record x 4 schedulers x Lmin x olap x window x order x backend x {3 gains, 3 delays}: Hxy = g and coh = 1 for pure gains; for delays Hxy equals the reference conj(X)Y/|X|^2 (which pins the conjugation on each backend separately) and, where the computed edge effect is small, the phase is negative and the magnitude ~1.",
             "physical clause (b) evaluated only where the reference says the edge effect is small for that record",
             "bounded exhaustive configuration/input enumeration against a reference model", "DESIGN.md §4 C07"),
     "C08": (E1,
@@ -42,7 +42,7 @@ CHECKS = {
             "rounding bound evaluated for the trended record; CUDA under the simulator for L in {3,8}",
             "bounded exhaustive configuration/input enumeration, differential oracle (with/without trend) plus reference model", "DESIGN.md §4 C08"),
     "C09": (E1,
-            "Every x over {-2,0,1}^6 (+2 fixed samples; ^8 in thorough) x 8 partner constructions x 3 plans x 4 orders x 2 windows x 2 backends: coherence range, Schwarz inequality, coh=1 for K=1/dependent channels, swap symmetry, auto-vs-pair, GyyCx+GyyRx=Gyy, GyySx=Gyy(1-coh) on every bin.",
+            "Conditioned-spectra identities also on degenerate bins and for the swapped pair (zero/constant channel first). Every x over {-2,0,1}^6 (+2 fixed samples; ^8 in thorough) x 8 partner constructions x 3 plans x 4 orders x 2 windows x 2 backends: coherence range, Schwarz inequality, coh=1 for K=1/dependent channels, swap symmetry, auto-vs-pair, GyyCx+GyyRx=Gyy, GyySx=Gyy(1-coh) on every bin.",
             "identities demanded to 1e-9 relative plus derived rounding tolerance; bins below 1e6x rounding are excluded from equalities",
             "bounded exhaustive input enumeration with algebraic invariants", "DESIGN.md §4 C09"),
     "C10": (E1,
@@ -54,15 +54,15 @@ CHECKS = {
             "statistical last sentence not claimed (DESIGN.md §6)",
             "bounded exhaustive configuration enumeration against a reference model", "DESIGN.md §4 C11"),
     "C12": (E1,
-            "P in 40..200 step 20 x L in 64..256 (step 8 quick, every integer + 512/1024/4096 thorough) x 3 line positions x 2 phases x every quarter-bin analysis offset beyond the main lobe up to DC and Nyquist, through compute_single_bin: single complex line via the cos/sin channel pair (threshold P-1 dB) and the real sinusoid (two lines, P-7.5 dB).",
+            "Odd segment lengths 65/129/251 in the quick tier. P in 40..200 step 20 x L in 64..256 (step 8 quick, every integer + 512/1024/4096 thorough) x 3 line positions x 2 phases x every quarter-bin analysis offset beyond the main lobe up to DC and Nyquist, through compute_single_bin: single complex line via the cos/sin channel pair (threshold P-1 dB) and the real sinusoid (two lines, P-7.5 dB).",
             "offsets on a quarter-bin grid; float64 dynamic range margin reported per P",
             "bounded exhaustive configuration enumeration with an analytic threshold", "DESIGN.md §4 C12"),
     "C13": (E1,
-            "N=8: all 255 position subsets x 4 non-finite kinds x channel choice x 8 containers (+5 one-channel containers): result equals the zero-filled record's and the caller's bytes are unchanged; containers x 5 dtypes x shapes give the float64 result; every x in {-2,0,1}^6(+2) x 10 partners x scales 1e-150/1/1e150 x 4 orders x auto/cross x full/single-bin: all densities, coherences, transfer functions finite, error bars finite where coh>0.",
+            "Containers include object-dtype arrays and lists with None. N=8: all 255 position subsets x 4 non-finite kinds x channel choice x 8 containers (+5 one-channel containers): result equals the zero-filled record's and the caller's bytes are unchanged; containers x 5 dtypes x shapes give the float64 result; every x in {-2,0,1}^6(+2) x 10 partners x scales 1e-150/1/1e150 x 4 orders x auto/cross x full/single-bin: all densities, coherences, transfer functions finite, error bars finite where coh>0.",
             "magnitude alphabet keeps the densities representable; cf_db=-inf at cf=0 is by definition",
             "bounded exhaustive input enumeration with differential and finiteness oracles", "DESIGN.md §4 C13"),
     "C14": (E3,
-            "Schedules: all six prange kernels and all six CUDA kernels are lifted from the working tree's source (one generator per loop iteration / CUDA thread, scheduling points at every access to a shared-mutable array) and every interleaving is enumerated: K=2 and K=3 without a preemption bound (34650 schedules per kernel at K=3), repeated starts with bound 2; one outcome, bitwise equal to the in-order run; every output slot written once. Conformance: compiled kernels under threads 1..16 x 7 chunk sizes x 7 segment counts x repetitions are bitwise equal to one thread and equal to the lifted in-order run. Histories: BFS over plan/compute/compute_single_bin sequences on one analyzer (depth 4 merged, depth 3 unmerged) and over every order of first attribute access on a result (depth 2; 3 thorough).",
+            "Parallel region captured through any number of compiled helper levels; a schedule's outcome is the returned value and the final contents of all array arguments; a worker process that dies inside the library is reported as a violation. Pair histories include order=1. Schedules: all six prange kernels and all six CUDA kernels are lifted from the working tree's source (one generator per loop iteration / CUDA thread, scheduling points at every access to a shared-mutable array) and every interleaving is enumerated: K=2 and K=3 without a preemption bound (34650 schedules per kernel at K=3), repeated starts with bound 2; one outcome, bitwise equal to the in-order run; every output slot written once. Conformance: compiled kernels under threads 1..16 x 7 chunk sizes x 7 segment counts x repetitions are bitwise equal to one thread and equal to the lifted in-order run. Histories: BFS over plan/compute/compute_single_bin sequences on one analyzer (depth 4 merged, depth 3 unmerged) and over every order of first attribute access on a result (depth 2; 3 thorough).",
             "each iteration its own thread (superset of every worker/chunk assignment); native thread timing not controlled, bound to the model by the conformance sweep; CUDA device scheduling not covered",
             "stateless schedule exploration (preemption-bounded DFS over the lifted kernel source) + explicit-state BFS over operation histories", "DESIGN.md §3.3, §4 C14"),
     "C15": (E1,
@@ -70,7 +70,7 @@ CHECKS = {
             "power-level tolerance 1e-7*S00 (observed 5e-15); records are the identifiable set",
             "bounded exhaustive configuration enumeration with differential and algebraic oracles", "DESIGN.md §4 C15"),
     "C16": (E1,
-            "lagrange_taps against exact rational Lagrange weights for all 56 odd orders x 18 fractional parts; timeshift for orders {1,3,5,7,31,111} (all 56 thorough) x N in 2..12,p+5,3p+7 x every integer shift in [-N-3,N+3] x fractional shifts x records incl. polynomials of every degree <= min(p,7): displacement with held ends, identity, interior-sample value = exact polynomial interpolation, polynomial reproduction, constant-vs-vector path agreement; df_timeshift option product.",
+            "Long records (N=70000..600000, orders 3/7/31/111, ramp^2 / 1e13 glitch / identifiable) with a per-stencil rounding allowance. lagrange_taps against exact rational Lagrange weights for all 56 odd orders x 18 fractional parts; timeshift for orders {1,3,5,7,31,111} (all 56 thorough) x N in 2..12,p+5,3p+7 x every integer shift in [-N-3,N+3] x fractional shifts x records incl. polynomials of every degree <= min(p,7): displacement with held ends, identity, interior-sample value = exact polynomial interpolation, polynomial reproduction, constant-vs-vector path agreement; df_timeshift option product.",
             "interior = whole stencil inside the record; tolerance scaled by the stencil's Lebesgue constant",
             "bounded exhaustive configuration/input enumeration against an exact-arithmetic reference", "DESIGN.md §4 C16"),
     "C17": (E2,
@@ -78,11 +78,11 @@ CHECKS = {
             "seeds/parameters outside the stated set not covered; equal state hash => equal futures (hash covers vars() recursively)",
             "explicit-state BFS over operation histories on the real objects", "DESIGN.md §3.2, §4 C17"),
     "C18": (E1,
-            "alpha in {0.01..2.0} (10 values) x 12 (fs,fmin,fmax) triples: analytic response of the object's own filter coefficients within 1 dB of f^-alpha on 400 points a factor 3 inside the corners; white rms^2 = psd*fs; fftnoise for every magnitude vector over {0,1,2.5} for N=2..14 (16 thorough) x 3 phase patterns x 3 seeds; band_limited_noise for samples 2..40 x every band-edge pair on and between grid points.",
+            "Band-limited noise of 2^20 and 2^20+1 samples and at sampling rates 1e-6 / 1e6. alpha in {0.01..2.0} (10 values) x 12 (fs,fmin,fmax) triples: analytic response of the object's own filter coefficients within 1 dB of f^-alpha on 400 points a factor 3 inside the corners; white rms^2 = psd*fs; fftnoise for every magnitude vector over {0,1,2.5} for N=2..14 (16 thorough) x 3 phase patterns x 3 seeds; band_limited_noise for samples 2..40 x every band-edge pair on and between grid points.",
             "corner regions (within a factor 3 of the effective corners) excluded as the property says 'between' the corners",
             "bounded exhaustive configuration/input enumeration with analytic oracles", "DESIGN.md §4 C18"),
     "C19": (E1,
-            "polynomial_detrend on every record over {-2,0,1}^n (n<=7; 8 thorough) and identifiable records of 30/200 samples x orders 0..5: orthogonality to all monomials of degree<=p, polynomials to zero, idempotence; df_detrend option product; integral_rms on uniform/log/irregular grids of 2..6 (8) points x every ASD over {0,1,2.5}^n x every band over grid points, midpoints, +-inf: trapezoid value, additivity at grid-point splits, monotonicity under nesting; get_rms incl. reversed bands.",
+            "RMS integration on grids in nano- and mega-hertz units; get_rms for fs=4e-7. polynomial_detrend on every record over {-2,0,1}^n (n<=7; 8 thorough) and identifiable records of 30/200 samples x orders 0..5: orthogonality to all monomials of degree<=p, polynomials to zero, idempotence; df_detrend option product; integral_rms on uniform/log/irregular grids of 2..6 (8) points x every ASD over {0,1,2.5}^n x every band over grid points, midpoints, +-inf: trapezoid value, additivity at grid-point splits, monotonicity under nesting; get_rms incl. reversed bands.",
             "the 'few percent of the time-domain RMS for broadband data' clause is statistical and not claimed (DESIGN.md §6)",
             "bounded exhaustive input enumeration against a reference model", "DESIGN.md §4 C19"),
     "C20": (E2,
